@@ -51,46 +51,62 @@ class Graph:
     def merged_cover(self, max_len=40, rng=None):
         """Fewer, longer paths that together cover every edge (greedy walk preferring uncovered edges)."""
         rng = rng or random.Random(0)
-        uncovered = {id(e) for e in self.edges if key(e["from"]) in self.path}
+        unc = {}          # state key -> list of uncovered out-edges
+        for k, es in self.succ.items():
+            if k in self.path:
+                unc[k] = list(es)
+        total = sum(len(v) for v in unc.values())
+        # state-level adjacency with one representative edge per distinct successor state
+        adj = {}
+        for k, es in self.succ.items():
+            seen = {}
+            for e in es:
+                kt = key(e["to"])
+                if kt not in seen:
+                    seen[kt] = e
+            adj[k] = list(seen.items())
         paths = []
-        guard = 0
-        while uncovered and guard < 100000:
-            guard += 1
-            # start from an init, walk preferring uncovered edges; else move along shortest path to one
-            start = rng.choice(self.inits)
-            cur = key(start)
+        while total > 0:
+            cur = key(rng.choice(self.inits))
             p = []
+            progressed = False
             while len(p) < max_len:
-                cands = [e for e in self.succ.get(cur, []) if id(e) in uncovered]
-                if cands:
-                    e = rng.choice(cands)
+                lst = unc.get(cur)
+                if lst:
+                    e = lst.pop(rng.randrange(len(lst)))
+                    total -= 1
+                    progressed = True
                 else:
-                    # BFS to nearest state with uncovered out-edge
-                    tgt = self._nearest(cur, uncovered)
-                    if tgt is None:
+                    e = self._toward_uncovered(cur, unc, adj)
+                    if e is None:
                         break
-                    e = tgt
                 p.append(e)
-                uncovered.discard(id(e))
                 cur = key(e["to"])
-            if not p:
-                break
+            if not p or not progressed:
+                # unreachable leftovers from this init: try shortest-path prefix to some state with uncovered edges
+                k = next((k for k, v in unc.items() if v), None)
+                if k is None:
+                    break
+                e = unc[k].pop()
+                total -= 1
+                paths.append(self.path[k] + [e])
+                continue
             paths.append(p)
         return paths
 
-    def _nearest(self, cur, uncovered):
+    def _toward_uncovered(self, cur, unc, adj):
         seen = {cur}
         dq = deque([(cur, None)])
         while dq:
             k, first = dq.popleft()
-            for e in self.succ.get(k, []):
+            for kt, e in adj.get(k, []):
+                if kt in seen:
+                    continue
                 f = first or e
-                if id(e) in uncovered:
+                if unc.get(kt):
                     return f
-                kt = key(e["to"])
-                if kt not in seen:
-                    seen.add(kt)
-                    dq.append((kt, f))
+                seen.add(kt)
+                dq.append((kt, f))
         return None
 
     def random_walks(self, n, length, rng):
